@@ -17,6 +17,7 @@ monitors as in cachemon apply per call:
 
 Monitors record; they never raise into klepto.
 """
+import os
 import random
 
 from kv import gen
@@ -359,6 +360,20 @@ class _Failed(object):
 
 
 def run_case(case, prop):
+    from kv.common import cwd_or_gone
+    cwd0 = cwd_or_gone()
+    r, viol = _run_case(case, prop)
+    if cwd_or_gone() != cwd0:
+        viol.append({'property': prop, 'kind': 'working-directory-changed', 'mech': [], 'case': case, 'step': -1,
+                     'msg': 'the history left the process in %s (it started in %s)' % (cwd_or_gone(), cwd0)})
+        try:
+            os.chdir(cwd0)
+        except OSError:
+            pass
+    return r, viol
+
+
+def _run_case(case, prop):
     with Scratch('rec') as root:
         try:
             r = RecRunner(case, root)
